@@ -63,6 +63,21 @@ theorem first_read_len (early declared m got : Nat) (h : early ≤ declared) :
     · simp only [h1, ↓reduceIte, Nat.max_def]
       split <;> omega
 
+/-- a body is handed out once: after a call that asked for anything, every further `read_to_bytes` returns nothing
+and takes nothing off the socket -/
+theorem later_reads_empty (s : St) (m got m' got' : Nat) (hm : min s.contentLength m ≠ 0) :
+    (readToBytes (readToBytes s m got).1 m' got').2 = 0 ∧
+    (readToBytes (readToBytes s m got).1 m' got').1 = (readToBytes s m got).1 := by
+  have hcl : (readToBytes s m got).1.contentLength = 0 := by
+    unfold readToBytes
+    simp only [hm, ↓reduceIte]
+    split <;> rfl
+  unfold readToBytes at hcl ⊢
+  simp only [hm, ↓reduceIte] at hcl ⊢
+  split
+  · simp
+  · simp
+
 /-- **in step, or closed**: after any reads, `discard_rest(max)` answers `true` exactly when no more than `max` bytes of
 the body are still to come, and then it has taken exactly those off the socket: `taken = declared − early`, the next
 byte on the connection is the next request's first -/
